@@ -216,12 +216,15 @@ def main():
         for fn in sorted(os.listdir(ROOT)):
             if fn.startswith('results_'):
                 rs += [json.loads(l) for l in open(ROOT + '/' + fn)]
+        seen = {}
+        for r in rs: seen[(r['file'], r['line'], r['new'])] = r
+        rs = list(seen.values())
         by = {}
         for r in rs: by.setdefault(r['status'], []).append(r)
         for k, v in by.items(): print(k, len(v))
         for st in ('SURVIVED', 'inconclusive'):
             for r in sorted(by.get(st, []), key=lambda r: (r['file'], r['line'])):
-                print('%s #%d %s:%d [%s]\n     - %s\n     + %s   %s' % (st, r['id'], r['file'], r['line'], r['op'], r['old'], r['new'], r.get('inconclusive', '')))
+                print('%s %s:%d  - %s  + %s   %s' % (st, r['file'], r['line'], r['old'][:90], r['new'][:90], r.get('inconclusive', '') or ''))
         c = {}
         for r in by.get('caught', []):
             for p in r['caught_by']: c[p] = c.get(p, 0) + 1
